@@ -607,3 +607,27 @@ Proof.
   - sdiv; intros Hz'; [contradiction|]. ssteps. split; [lia|]. cbn [obs_of]. heap_simp.
     symmetry. apply (expected_ok emod always_fits true (rd h d) (rd h d2)); [intros _; exact Hz|reflexivity].
 Qed.
+
+(* BigInt.Mul: the pre-check on the operands' bit lengths never rejects a representable product *)
+Lemma bitlen_mul_lower : forall a b, a <> 0 -> b <> 0 -> bitlen a + bitlen b - 1 <= bitlen (a * b).
+Proof.
+  intros a b Ha Hb. unfold bitlen.
+  destruct (Z.eqb_spec a 0); [contradiction|]. destruct (Z.eqb_spec b 0); [contradiction|].
+  destruct (Z.eqb_spec (a * b) 0); [nia|].
+  rewrite Z.abs_mul. pose proof (Z.log2_mul_below (Z.abs a) (Z.abs b) ltac:(lia) ltac:(lia)). lia.
+Qed.
+Lemma BI_Mul_spec : forall h d d2, (d < next h)%nat -> (d2 < next h)%nat ->
+  bitlen (rd h d) <= max_bit_len -> bitlen (rd h d2) <= max_bit_len ->
+  spec (BI_Mul d d2) h
+    (fun h' r => (next h <= r)%nat /\ obs_of (Ok h' r) = expected Z.mul fits1024 false (rd h d) (rd h d2))
+    (fun e h' => obs_of (Panic e h') = expected Z.mul fits1024 false (rd h d) (rd h d2)).
+Proof.
+  intros h d d2 Hd Hd2 Ba Bb. unfold BI_Mul. ssteps.
+  destruct (Z.ltb_spec max_bit_len (bitlen (rd h d) + bitlen (rd h d2) - 1)) as [Hpre|Hpre]; ssteps.
+  - cbn [obs_of perr_code]. symmetry. apply expected_ovf; [apply nodiv|]. unfold fits1024.
+    assert (Hnz : rd h d <> 0 /\ rd h d2 <> 0).
+    { split; intro E; rewrite E in *; change (bitlen 0) with 0 in *; lia. }
+    destruct Hnz as [Ha Hb]. pose proof (bitlen_mul_lower _ _ Ha Hb).
+    destruct (Z.ltb_spec max_bit_len (bitlen (rd h d * rd h d2))); [reflexivity|lia].
+  - apply (checkBI_ok h); [apply nodiv|heap_simp; reflexivity|lia].
+Qed.
